@@ -98,7 +98,7 @@ def main():
         confirmed = res.get("demo_clean_passes") and res.get("patch_applies") and res.get("builds") and \
             res.get("demo_fails_with_patch") and sum(res.get("suite_passes_with_patch", [False])) >= 2
         res["confirmed"] = bool(confirmed)
-        d = os.path.join(ROOT, "seeded", "%s-%s" % (prop, k))
+        d = os.path.join(ROOT, "seeded", "%s-%s%s" % (prop, os.environ.get("SEED_TAG", ""), k))
         if confirmed:
             os.makedirs(d, exist_ok=True)
             shutil.copy(patch, os.path.join(d, "patch.diff"))
